@@ -275,9 +275,9 @@ func (c *channel) sendMsg(req request) (err error) {
 		c.setLastErr(err)
 		c.streamBroken.set()
 	}
-	vEmit("SendDone", c.node.ID(), req.msg.Metadata.MessageID, "ok", err == nil)
 
 	close(done)
+	vEmit("SendDone", c.node.ID(), req.msg.Metadata.MessageID, "ok", err == nil)
 
 	return err
 }
